@@ -1219,25 +1219,35 @@ static void union_initializer(Token **rest, Token *tok, Initializer *init) {
   // Unlike structs, union initializers take only one initializer,
   // and that initializes the first union member by default.
   // You can initialize other member using a designated initializer.
-  if (equal(tok, "{") && equal(tok->next, ".")) {
-    Member *mem = struct_designator(&tok, tok->next, init->ty);
-    init->mem = mem;
-    designation(&tok, tok, init->children[mem->idx]);
-    *rest = skip(tok, "}");
+  // A braced list may name several members; the last one wins.
+  if (!init->ty->members)
+    error_tok(tok, "initializer for a union that has no members");
+
+  if (equal(tok, "{")) {
+    tok = tok->next;
+    bool first = true;
+
+    while (!consume_end(rest, tok)) {
+      if (!first)
+        tok = skip(tok, ",");
+
+      if (equal(tok, ".")) {
+        Member *mem = struct_designator(&tok, tok, init->ty);
+        init->mem = mem;
+        designation(&tok, tok, init->children[mem->idx]);
+      } else if (first) {
+        init->mem = init->ty->members;
+        initializer2(&tok, tok, init->children[0]);
+      } else {
+        tok = skip_excess_element(tok);
+      }
+      first = false;
+    }
     return;
   }
 
   init->mem = init->ty->members;
-  if (!init->mem)
-    error_tok(tok, "initializer for a union that has no members");
-
-  if (equal(tok, "{")) {
-    initializer2(&tok, tok->next, init->children[0]);
-    consume(&tok, tok, ",");
-    *rest = skip(tok, "}");
-  } else {
-    initializer2(rest, tok, init->children[0]);
-  }
+  initializer2(rest, tok, init->children[0]);
 }
 
 // initializer = string-initializer | array-initializer
